@@ -35,8 +35,13 @@ SHADOWABLE = [("clock", {"o": "native"}), ("Range", cls("Range")), ("HashMap", c
               ("Func", cls("Func")), ("Tuple", cls("Tuple")), ("Method", cls("Method"))]
 
 
+SMREG = "var hooks = [];\n"
+
+
 def module_source(m, site):
+    # the module hands a callback to an already loaded module (the registry) BEFORE the point where its body may fail
     return ('print(("ev", "load", "sm%d"));\nvar mv = 1;\nfn bump() { mv = mv + 1; return mv; }\n'
+            'import "smreg";\nsmreg.hooks.push(bump);\n'
             'print(("chk", "%s"));\nprint(("ev", "loaded", "sm%d"));\n' % (m, site, m))
 
 
@@ -120,12 +125,14 @@ class Gen:
                 out.append(["capcrash", k, self.site(), self.id()])
             elif kind == "callcap":
                 out.append(["callcap", k, self.id()])
+            elif kind == "callhook":
+                out.append(["callhook", r.below(4), self.id()])
         return out
 
 
 KINDS_W = [("set", 10), ("inc", 10), ("assign", 6), ("chk", 12), ("probe", 10), ("call", 12), ("tryfin", 8), ("trycatch", 6),
            ("fiber", 6), ("fiber2", 4), ("method", 5), ("classcrash", 3), ("deffn", 5), ("callfn", 7), ("defclass", 4),
-           ("useclass", 5), ("deffiber", 4), ("resume", 7), ("import", 6), ("modcall", 6), ("throw", 5), ("poke", 3), ("corelib", 6), ("shadow", 4), ("useshadow", 6), ("capcrash", 5), ("callcap", 7)]
+           ("useclass", 5), ("deffiber", 4), ("resume", 7), ("import", 6), ("modcall", 6), ("throw", 5), ("poke", 3), ("corelib", 6), ("shadow", 4), ("useshadow", 6), ("capcrash", 5), ("callcap", 7), ("callhook", 7)]
 
 
 def gen_session(seed):
@@ -245,6 +252,10 @@ def render_snip(stmts, uid, stale=()):
                 st[1], 40 + st[1], st[1], st[2], st[3], st[1]))
         elif k == "callcap":
             out.append('print(("ev", %d, pc%d()));' % (st[2], st[1]))
+        elif k == "callhook":
+            # a callback a module body handed to the registry module - possibly a module whose body failed afterwards
+            out.append('import "smreg"; if smreg.hooks.len() > %d { print(("ev", %d, smreg.hooks[%d]())); } else { print(("ev", %d, "nohook")); }' % (
+                st[1], st[2], st[1], st[2]))
         elif k == "corelib":
             # names and classes the core library defines: present on a new interpreter, so present after every snippet and reset
             out.append('print(("ev", %d, [1, 2].iter().map(|x| { return x + 1; }).collect(), [1, 2, 3].iter().filter(|x| { return x != 2; }).collect(), '
@@ -296,7 +307,7 @@ def model(ir, faults):
 
     def fresh():
         st.clear()
-        st.update(G={}, funcs={}, classes={}, fibers={}, names=set(), mods={}, shadows={}, caps={}, oneshot=set())
+        st.update(G={}, funcs={}, classes={}, fibers={}, names=set(), mods={}, shadows={}, caps={}, oneshot=set(), hooks=[])
 
     fresh()
 
@@ -436,6 +447,7 @@ def model(ir, faults):
                         ms["state"] = "failed"     # until the body completes
                         ev.append([s("load"), s("sm%d" % m)])
                         ms["mv"] = 1
+                        st["hooks"].append(m)
                         chk(ir["mod_sites"][str(m)], "module_body")
                         ev.append([s("loaded"), s("sm%d" % m)])
                         ms["state"] = "loaded"
@@ -492,6 +504,15 @@ def model(ir, faults):
                     st["caps"][stt[1]][0] += 1
                     probes.inc("closure_from_earlier_snippet_called")
                     ev.append([num(stt[2]), num(st["caps"][stt[1]][0])])
+                elif k == "callhook":
+                    if stt[1] < len(st["hooks"]):
+                        hm = st["hooks"][stt[1]]
+                        ms = st["mods"][hm]
+                        ms["mv"] += 1
+                        probes.inc("callback_of_module_called:" + ms["state"])
+                        ev.append([num(stt[2]), num(ms["mv"])])
+                    else:
+                        ev.append([num(stt[2]), s("nohook")])
                 elif k == "corelib":
                     probes.inc("core_library_used")
                     ev.append([num(stt[1]), {"v": [num(2), num(3)]}, {"v": [num(1), num(3)]}, cls("ErrorClass"), num(5),
@@ -516,6 +537,7 @@ def programs_of(ir):
         else:
             progs.append({"kind": "snippet", "source": render_snip(item[1], i, stale.get(i, []))})
     fs = {"sm%s" % m: {"source": module_source(int(m), site), "reads": []} for m, site in ir["mod_sites"].items()}
+    fs["smreg"] = {"source": SMREG, "reads": []}
     return progs, fs
 
 
